@@ -253,8 +253,9 @@ def r07b(R):
         R.check(f, rets[0].value if rets else name,
                 iv is not None and iv[0] == 0 and iv[1] == hi and iv[2],
                 '%s must be round(clamp(x, 0, %d)); found %s' % (name, hi, iv))
-        if iv is not None and len(rets) == 1 and clamp_interval(
-                A, f, rets[0].value, f.params[0]) is not None:
+        if iv is not None and len(rets) == 1 and f in A.live_functions() \
+                and clamp_interval(
+                    A, f, rets[0].value, f.params[0]) is not None:
             R.check(f, 'NaN: %s' % norm(rets[0].value),
                     nan_absorbed(rets[0].value, f.params[0]),
                     '%s does not absorb NaN: min / max hand back their first '
